@@ -597,6 +597,11 @@ impl Arena {
       let (next_node_size, next_next_offset) = decode_segment_node(next_node);
       if next_node_size == REMOVED_SEGMENT_NODE {
         backoff.snooze();
+        // A removed node keeps its mark after it has been unlinked, so looking at the same
+        // `next` again could wait for ever: start over from the head of the list.
+        current = &header.sentinel;
+        current_node = current.load(Ordering::Acquire);
+        (current_node_size, next_offset) = decode_segment_node(current_node);
         continue;
       }
 
